@@ -304,6 +304,9 @@ impl Check for C12 {
         })
         .unwrap()
     }
+    fn isolate(&self, _scenario: &Value) -> bool {
+        true
+    }
     fn execute(&self, scenario: &Value) -> Outcome {
         let sc: Scenario = match serde_json::from_value(scenario.clone()) {
             Ok(s) => s,
